@@ -314,6 +314,20 @@ class PointAlong(Op):
             want = np.cosh(d)[..., None] * phat + np.sinh(d)[..., None] * what
             ctx.small("point_along vs cosh d p + sinh d v",
                       proj_dist(np.array(Q.proj_data), want), 1e-9)
+            if len(shape) >= 2:
+                # distances that broadcast against the composite shape the NumPy way: one per
+                # index of the last axis, or one per index of the first (shape (a, 1, ..))
+                lead = (slice(None),) + (0,) * (len(shape) - 1)
+                for tag, dv in (("last axis", d[(0,) * (len(shape) - 1)]),
+                                ("first axis", d[lead].reshape((shape[0],) + (1,) *
+                                                               (len(shape) - 1)))):
+                    db = np.broadcast_to(dv, shape)
+                    Qb = H.TangentVector(R.copy()).point_along(dv.copy())
+                    ctx.check(tuple(Qb.shape) == tuple(shape), "point_along with distances "
+                              "along the %s: shape" % tag, got=Qb.shape, want=shape)
+                    wb = np.cosh(db)[..., None] * phat + np.sinh(db)[..., None] * what
+                    ctx.small("point_along with one distance per index of the %s" % tag,
+                              proj_dist(np.array(Qb.proj_data), wb), 1e-9)
         return [("shape", tuple(Q.shape), "shape"), ("point", np.array(Q.proj_data), "proj")]
 
 
